@@ -11,6 +11,8 @@ for id in "$@"; do
   git -C /repo checkout -q -- . ; git -C /repo apply $d/patch.diff || { echo "$id: patch does not apply"; continue; }
   out=$(VCHECK_FUZZ_ONLY=1 VCHECK_FUZZ_RUNS=${FUZZ_RUNS:-1500000} $VERIF/check $prop thorough 2>&1)
   git -C /repo checkout -q -- .
+  git -C $VERIF checkout -q -- evidence/$prop.json 2>/dev/null   # a tooling run on a mutated tree must not leave its evidence behind
+  rm -f $VERIF/replays/$prop-*.json
   v=$(echo "$out" | grep -A1 "^VIOLATION" | tail -1)
   stats=$(echo "$out" | grep "libFuzzer" | grep -o "evals=[0-9]* nontrivial=[0-9]*.* [0-9.]*s$")
   if [ -n "$v" ]; then echo "$id: FOUND $v | $stats"; else echo "$id: NOT-FOUND | $stats $(echo "$out" | grep -i "inconclusive" | head -2 | cut -c1-200)"; fi
